@@ -43,7 +43,7 @@ def check(case, ctx):
     # every nonterminal receives a value
     with warnings.catch_warnings():
         warnings.simplefilter('ignore')
-        zs = ctx.call('sum_products', fggs.sum_products, fgg, method='fixed-point', kmax=30, tol=1e-3)
+        zs = ctx.call('sum_products', fggs.sum_products, fgg, method='fixed-point', kmax=30, tol=1e-3, semiring=fggs.RealSemiring(dtype=torch.float64))
     ctx.require({el.name for el in zs if el.is_nonterminal} == want_keys, 'sum_products-keys',
                 f'{sorted(el.name for el in zs if el.is_nonterminal)} != {sorted(want_keys)}')
     ctx.label('hrg', 'hrg-recursive' if gen_fgg.is_recursive(spec) else None, 'hrg-ruleless-nt' if any(not gen_fgg.rules_of(spec, x) for x in want_keys) else None)
